@@ -36,7 +36,7 @@ fn interleavings(seqs: &[Vec<Ev>], f: &mut dyn FnMut(&[Ev])) {
     rec(seqs, &mut pos, &mut cur, f);
 }
 
-fn cases(dag: &Dag, actors: usize, with_action: bool, split: bool, f: &mut dyn FnMut(&[Ev])) {
+pub fn cases(dag: &Dag, actors: usize, with_action: bool, split: bool, f: &mut dyn FnMut(&[Ev])) {
     let n = dag.len();
     let setup = vec![Ev::Add { trx: 9, nodes: vec![0] }, Ev::Commit { trx: 9 }];
     mcx::enumerate::sequences(actors, n - 1, |assign| {
